@@ -158,6 +158,48 @@ func init() {
 		c.set(mkInt(int64(v)))
 		return nil, false
 	})
+	boolArgs := func(c *icall) []string {
+		var ts []string
+		if sl := c.args[0].(SliceV); sl.Obj != 0 {
+			for _, e := range c.s.Heap[sl.Obj].(ArrayV).E[sl.Off : sl.Off+sl.Len] {
+				ts = append(ts, e.(BoolV).T)
+			}
+		}
+		return ts
+	}
+	reg("And", func(c *icall) ([]*State, bool) { c.set(BoolV{tAnd(boolArgs(c)...)}); return nil, false })
+	reg("Or", func(c *icall) ([]*State, bool) { c.set(BoolV{tOr(boolArgs(c)...)}); return nil, false })
+	reg("Implies", func(c *icall) ([]*State, bool) {
+		c.set(BoolV{tImp(c.args[0].(BoolV).T, c.args[1].(BoolV).T)})
+		return nil, false
+	})
+	reg("Not", func(c *icall) ([]*State, bool) { c.set(BoolV{tNot(c.args[0].(BoolV).T)}); return nil, false })
+	reg("Ite", func(c *icall) ([]*State, bool) {
+		c.set(BoolV{tIte(c.args[0].(BoolV).T, c.args[1].(BoolV).T, c.args[2].(BoolV).T)})
+		return nil, false
+	})
+	reg("ReachIf", func(c *icall) ([]*State, bool) {
+		label := litArg(c.args[1], "reach label")
+		cond := c.args[0].(BoolV).T
+		e := c.w.E
+		e.mu.Lock()
+		seen := e.Reached[label] > 0
+		e.mu.Unlock()
+		if seen || cond == "false" {
+			return nil, false
+		}
+		ok := cond == "true"
+		if !ok {
+			r, _ := c.w.S.Check(c.s.Decls, c.s.PC, []string{cond}, nil)
+			ok = r == "sat"
+		}
+		if ok {
+			e.mu.Lock()
+			e.Reached[label]++
+			e.mu.Unlock()
+		}
+		return nil, false
+	})
 	reg("NoPanic", func(c *icall) ([]*State, bool) { c.s.NoPanic = true; return nil, false })
 	reg("Observe", func(c *icall) ([]*State, bool) {
 		iv := c.args[1].(IfaceV)
